@@ -88,6 +88,14 @@ def load_known():
         return json.load(f)["findings"]
 
 
+def _unroll_note(tier):
+    from . import util
+    if tier != "thorough" and not util.UNROLL_DEEP:
+        return {"depth": 1}
+    return {"depth": 2, "bodies_at_depth_2": sorted(util.UNROLL_DEEP),
+            "fell_back_to_depth_1 (path bound exceeded at depth 2)": sorted(util.UNROLL_FALLBACK)}
+
+
 def report(prop, obs, tier, seed, wall, cfgsets, checker_cmd):
     """Print findings, write replay + evidence files. Returns exit code."""
     known = [k for k in load_known() if k["property"] == prop.id and k.get("status") == "known"]
@@ -156,6 +164,7 @@ def report(prop, obs, tier, seed, wall, cfgsets, checker_cmd):
         "cfgsets": cfgsets,
         "known_findings_reported": sorted(printed_known),
         "rules": {r.id: {"floor": r.floor, "doc": r.doc} for r in prop.rules},
+        "loop_unrolling": _unroll_note(tier),
     }
     ev = {
         "property_id": prop.id,
